@@ -9,6 +9,6 @@ S=$(mktemp -d /tmp/seeded.XXXX); cp -r SEEDED "$S/" || exit 9
 git checkout -q -f --detach "$(git -C /repo rev-parse HEAD)" || exit 9
 git clean -fdqx; cp -r "$S/SEEDED" . ; rm -rf "$S"
 git apply SEEDED/patch.diff || { echo "patch does not apply to /repo HEAD"; exit 9; }
-cd /verif
+cd "${VERIF_ROOT:-/verif}"
 VERIF_REPO="$WT" ./check $PROP --tier $TIER > /tmp/try_alt_$PROP.log 2>&1; RC=$?
 echo "check-exit=$RC"; grep -E "VIOLATION|KNOWN-FINDING|INCONCLUSIVE" /tmp/try_alt_$PROP.log | cut -c1-220 | head -6; grep -A1 VIOLATION /tmp/try_alt_$PROP.log | grep signature | head -5
